@@ -207,6 +207,14 @@ func (ev *Env) binary(x *EBinary) T {
 }
 
 func (ev *Env) resolveType(name string) (types.Type, Sort) {
+	if strings.HasPrefix(name, "[]") {
+		et, _ := ev.resolveType(name[2:])
+		return types.NewSlice(et), "Slice"
+	}
+	if strings.HasPrefix(name, "*") {
+		et, _ := ev.resolveType(name[1:])
+		return types.NewPointer(et), "Int"
+	}
 	switch name {
 	case "int", "Int":
 		return types.Typ[types.Int], "Int"
@@ -355,7 +363,7 @@ func (ev *Env) index(x, i T) T {
 	case *types.Slice:
 		es := vc.sortOf(u.Elem())
 		h := vc.heapArr(es)
-		return T{fmt.Sprintf("(select (select %s (s_arr %s)) (+ (s_off %s) %s))", vc.heapGet(ev.st, h), x.S, x.S, i.S), es, u.Elem()}
+		return T{vc.at(es, vc.heapGet(ev.st, h), x.S, i.S), es, u.Elem()}
 	case *types.Array:
 		return T{fmt.Sprintf("(select %s %s)", x.S, i.S), vc.sortOf(u.Elem()), u.Elem()}
 	case *types.Map:
@@ -1055,6 +1063,20 @@ func (ev *Env) builtinSpec(name string, argEs []Expr) (T, bool) {
 		vc.regHeap("G_visits", "(Array Int Int)")
 		a := arg(0)
 		return T{fmt.Sprintf("(select %s %s)", vc.heapGet(ev.st, "G_visits"), a.S), "Int", intT}, true
+	case "written":
+		return T{vc.ghostGet(ev.st, "G_written", arg(0).S), "Int", intT}, true
+	case "consumed":
+		return T{vc.ghostGet(ev.st, "G_consumed", arg(0).S), "Int", intT}, true
+	case "lastInt":
+		return T{vc.ghostGet(ev.st, "G_lastInt", arg(0).S), "Int", intT}, true
+	case "lastSlice":
+		return T{vc.ghostGet(ev.st, "G_lastSlice", arg(0).S), "Slice", nil}, true
+	case "total":
+		vc.declStream()
+		return T{fmt.Sprintf("(io.total %s)", arg(0).S), "Int", intT}, true
+	case "stream":
+		vc.declStream()
+		return T{fmt.Sprintf("(io.stream %s %s)", arg(0).S, arg(1).S), "Int", intT}, true
 	case "forked":
 		vc.regHeap("G_forked", "(Array Int Int)")
 		a := arg(0)
